@@ -55,11 +55,11 @@ def directed_payload():
         for ch in ("é", "日", "𝄞", "\u0301", "😀", "\u00a0", "ª", "\u2028"):
             texts.append(sl.replace("%s", ch))
             texts.append("é = 'é'; " + sl.replace("%s", ch) + "\n")
-    out = b""
+    parts = []
     for t in ["\x00VERBATIM"] + texts:
         b = t.encode("utf-8")
-        out += str(len(b)).encode() + b"\n" + b
-    return out, len(texts)
+        parts.append(str(len(b)).encode() + b"\n" + b)
+    return b"".join(parts), len(texts)
 
 
 def single_character_payload(thorough):
@@ -82,11 +82,11 @@ def single_character_payload(thorough):
             continue
         ch = chr(c)
         texts += [ch, "a" + ch, ch + "1", "match " + ch + ":"]
-    out = b""
+    parts = []
     for t in ["\x00VERBATIM"] + texts:
         b = t.encode("utf-8")
-        out += str(len(b)).encode() + b"\n" + b
-    return out, len(texts)
+        parts.append(str(len(b)).encode() + b"\n" + b)
+    return b"".join(parts), len(texts)
 
 
 def seeds_payload(seed, n, maxlen):
@@ -110,15 +110,15 @@ def seeds_payload(seed, n, maxlen):
             texts.append(text)
     for tag, text in tw.generated_programs(seed, n, salt="c03gen"):
         texts.append(text[:maxlen])
-    out = b""
+    parts = []
     for t in texts:
         tb = t.encode("utf-8", "surrogatepass")
         try:
             tb.decode("utf-8")
         except UnicodeDecodeError:
             continue
-        out += b"%d\n" % len(tb) + tb
-    return out
+        parts.append(b"%d\n" % len(tb) + tb)
+    return b"".join(parts)
 
 
 def classify(v):
